@@ -537,6 +537,13 @@ func (w *Worktree) resetIndex(t *object.Tree, dirs, files []string) ([]string, e
 			}
 		}
 
+		// a replaced entry keeps its skip-worktree flag (it is recomputed
+		// below when sparse directories are given)
+		var skip bool
+		if old, ok := b.entries[name]; ok {
+			skip = old.SkipWorktree
+		}
+
 		b.Remove(name)
 		removedFiles = append(removedFiles, name)
 		if e == nil {
@@ -544,9 +551,10 @@ func (w *Worktree) resetIndex(t *object.Tree, dirs, files []string) ([]string, e
 		}
 
 		b.Add(&index.Entry{
-			Name: name,
-			Hash: e.Hash,
-			Mode: e.Mode,
+			Name:         name,
+			Hash:         e.Hash,
+			Mode:         e.Mode,
+			SkipWorktree: skip,
 		})
 	}
 
